@@ -149,7 +149,7 @@ def explicit(case):
     if "ops" in case:
         return case
     ops, ob, summary = mc.guided(case["seed"], case["n"], case["profile"], finish_run=True)
-    npeers = 0 if case["profile"] in ("lonely", "fail-initial", "welcome-error") else (2 if case["profile"] == "crowded" else 1)
+    npeers = 0 if case["profile"] in ("lonely", "fail-initial", "welcome-error", "third-alone") else (2 if case["profile"] == "crowded" else 1)
     return dict(ops=ops, seed=case["seed"], npeers=npeers, profile=case["profile"], finished=True,
                 welcome_error="please upgrade" if case["profile"] == "welcome-error" else None)
 
